@@ -154,6 +154,7 @@ def run(ctx):
     _K.accumulator_reset(ctx, rule="R16.6")  # mode-summation kernels: phase reset per mode, every point and mode visited (shared with C15)
     _K.accumulator_complete(ctx, rule="R16.6")
     _K.build_independent(ctx, rule="R16.6")
+    _K.kernel_shape(ctx, rule="R16.6")
     _K.full_extent(ctx, rule="R16.6")
     _K.zero_init(ctx, rule="R16.6")
     from . import C15_bounds
@@ -201,7 +202,14 @@ def run(ctx):
     ctx.check(ok, "R16.1", site, "k2 is the squared norm of the same wave-vector column (%s) the projector uses, over all components" % col, "k2-column")
     sq = prog.func(SUM, "abs_square")
     body = [s for s in sq.body if isinstance(s, ast.For)]
-    ok = len(body) == 1 and ast.unparse(body[0].iter) == "range(vec.shape[0])" and len(body[0].body) == 1 and norm_stmt(body[0].body[0]) in ("r += vec[i] ** 2", "r += vec[i] * vec[i]")
+    pv = sq.args.args[0].arg if sq.args.args else "vec"  # the helper's own name for its vector
+    ok = len(body) == 1 and ast.unparse(body[0].iter) == "range(%s.shape[0])" % pv and len(body[0].body) == 1 and isinstance(body[0].target, ast.Name)
+    if ok:
+        iv = body[0].target.id
+        acc = body[0].body[0]
+        ok = isinstance(acc, ast.AugAssign) and isinstance(acc.op, ast.Add) and isinstance(acc.target, ast.Name) and ast.unparse(acc.value) in ("%s[%s] ** 2" % (pv, iv), "%s[%s] * %s[%s]" % (pv, iv, pv, iv))
+        rets = [r for r in sq.body if isinstance(r, ast.Return)]
+        ok = ok and len(rets) == 1 and ast.unparse(rets[0].value) == acc.target.id
     ctx.check(ok, "R16.1", SUM + "::abs_square", "abs_square sums the squares of every component (not its square root)", "abs-square")
     # k2 and proj are in the same (i, j) iteration: k_2 assigned in the loop over j that encloses the projector
     jl = [n for n in ast.walk(fn) if isinstance(n, ast.For) and isinstance(n.target, ast.Name) and n.target.id == col] if col else []
